@@ -302,8 +302,27 @@ def run_script(script, comp):
     slow = bool(script['slow_open'])
     draws, choices, shuffles = [], [], []
 
+    # `named`: the provider selects a named endpoint ('http') of every member, and a member's *service* endpoint is
+    # the named endpoint of the member before it (a replacement process that was handed the freed port); the
+    # balancer must go by the named endpoint everywhere.  Explicit flag, else derived from the script.
+    named = script.get('named')
+    if named is None:
+        import json as _json
+        import zlib as _zlib
+        named = bool(_zlib.crc32(_json.dumps([script.get('initial'), script.get('seed')]).encode()) % 3 == 0)
+
+    class NamedMember(object):
+        def __init__(self, ep):
+            self.service_endpoint = ScalesUriParser.Endpoint('h', 8000 + ep - 1)
+            self.additional_endpoints = {'http': ScalesUriParser.Endpoint('h', 8000 + ep)}
+
     def server(ep):
+        if named:
+            return NamedMember(ep)
         return ScalesUriParser.Server(ScalesUriParser.Endpoint('h', 8000 + ep))
+
+    def member_ep(m):
+        return m.additional_endpoints['http'] if named else m.service_endpoint
 
     def ep_id(endpoint):
         return endpoint.port - 8000
@@ -324,7 +343,7 @@ def run_script(script, comp):
 
         def shuffle(self, lst):
             self._r.shuffle(lst)
-            shuffles.append([ep_id(m.service_endpoint) for m in lst])
+            shuffles.append([ep_id(member_ep(m)) for m in lst])
 
         def __getattr__(self, name):
             return getattr(self._r, name)
@@ -396,6 +415,10 @@ def run_script(script, comp):
 
         def Close(self):
             pass
+
+        @property
+        def endpoint_name(self):
+            return 'http' if named else None
 
         def GetServers(self):
             self.calls += 1
@@ -539,6 +562,8 @@ def run_script(script, comp):
         return q
 
     steps, tags = [], set()
+    if named:
+        tags.add('named-endpoint')
     req_seen = [0]
 
     def harvest():
